@@ -69,7 +69,7 @@ NOT_YET = {
 }
 
 def main():
-    hooks_commit = "c15f1bf"
+    hooks_commits = ["c15f1bf", "2e386a3", "148fea1"]
     checks = []
     for pid in sorted(CHECKS):
         tech, text, note = CHECKS[pid]
@@ -91,7 +91,7 @@ def main():
             "guard": "cargo feature `verif-hooks` of crate riscv_analysis (off by default)",
             "enable": "the harness crate /verif/harness depends on /repo/riscv_analysis with features=[\"verif-hooks\"]; the rva binary is built without it",
             "baseline_off_cmd": "cd /repo && cargo test --workspace --no-fail-fast --offline",
-            "source_commits": [hooks_commit],
+            "source_commits": hooks_commits,
             "add_only": True,
         },
         "engines": [{
